@@ -337,6 +337,19 @@ func (e *SpecEnv) constSVal(cv constant.Value, t types.Type) SVal {
 func (e *SpecEnv) selField(v SVal, name string) SVal {
 	val := v.V
 	t := v.T
+	if tv, ok := val.(TupleVal); ok {
+		tup, _ := t.(*types.Tuple)
+		for i := range tv {
+			if name == fmt.Sprintf("r%d", i) || (tup != nil && tup.At(i).Name() == name) {
+				var et types.Type
+				if tup != nil {
+					et = tup.At(i).Type()
+				}
+				return SVal{V: tv[i], T: et}
+			}
+		}
+		sfail("no result %s in tuple", name)
+	}
 	if p, ok := val.(PtrVal); ok {
 		val = e.x.readPtr(e.st(), p)
 		if pt, ok := t.Underlying().(*types.Pointer); ok {
@@ -929,6 +942,12 @@ func (e *SpecEnv) evalCall(n *ECall) SVal {
 		inside := o.And(o.Eq(r, sl.Reg), o.IdxLe(sl.Off, i), o.IdxLt(i, o.IdxAdd(sl.Off, sl.Len)))
 		body := o.Implies(o.And(o.Le(o.Int(0), r), o.Lt(r, e.allocPre), o.Not(inside)), o.Eq(o.Select(o.Select(e.st().H, r), i), o.Select(o.Select(e.pre.H, r), i)))
 		return SVal{V: o.Forall([]*Term{r, i}, body), T: typBool}
+	case "heapSame":
+		// every byte of pre-existing memory has its value from function entry
+		r := o.BoundVar("r", IntSort)
+		i := o.BoundVar("i", o.IdxSort())
+		body := o.Implies(o.And(o.Le(o.Int(0), r), o.Lt(r, e.allocPre)), o.Eq(o.Select(o.Select(e.st().H, r), i), o.Select(o.Select(e.pre.H, r), i)))
+		return SVal{V: o.Forall([]*Term{r, i}, body), T: typBool}
 	case "heapSameExceptFrom":
 		// heapSameExceptFrom(s, lo): every byte of pre-existing memory other than s[lo:cap(s)] is unchanged
 		v := arg(0)
@@ -942,6 +961,40 @@ func (e *SpecEnv) evalCall(n *ECall) SVal {
 		inside := o.And(o.Eq(r, sl.Reg), o.IdxLe(o.IdxAdd(sl.Off, lo), i), o.IdxLt(i, o.IdxAdd(sl.Off, sl.Cap)))
 		body := o.Implies(o.And(o.Le(o.Int(0), r), o.Lt(r, e.allocPre), o.Not(inside)), o.Eq(o.Select(o.Select(e.st().H, r), i), o.Select(o.Select(e.pre.H, r), i)))
 		return SVal{V: o.Forall([]*Term{r, i}, body), T: typBool}
+	case "rangePos":
+		// the byte position of the (single) string iterator of the function
+		st := e.st()
+		var found Val
+		for obj, v := range st.Cells {
+			if strings.HasPrefix(obj.Name, "rangeiter:") {
+				if found != nil {
+					sfail("rangePos: more than one string iterator in scope")
+				}
+				found = v
+			}
+		}
+		if found == nil {
+			sfail("rangePos: no string iterator in scope")
+		}
+		return SVal{V: found, T: typInt}
+	case "theBuilder":
+		st := e.st()
+		var found Val
+		for obj, v := range st.Cells {
+			if strings.Contains(obj.T.String(), "strings.Builder") {
+				if found != nil {
+					sfail("theBuilder: more than one strings.Builder in scope")
+				}
+				found = v
+			}
+		}
+		if found == nil {
+			sfail("theBuilder: no strings.Builder in scope")
+		}
+		if _, isStruct := found.(StructVal); isStruct {
+			found = e.x.zeroVal(types.NewSlice(typByte))
+		}
+		return SVal{V: found, T: types.NewSlice(typByte)}
 	case "theBuffer":
 		// the contents of the (single) bytes.Buffer object of the function, as a byte slice
 		st := e.st()
@@ -1132,8 +1185,11 @@ func (e *SpecEnv) evalCall(n *ECall) SVal {
 				args = append(args, a.V)
 			}
 		}
-		rt := fn.Signature.Results().At(0).Type()
-		return SVal{V: e.x.pureApp(fn, fc, args, e.st(), o.ElemSort(rt)), T: rt}
+		pv := e.x.pureResults(fn, fc, args, e.st())
+		if len(pv) == 1 {
+			return SVal{V: pv[0], T: fn.Signature.Results().At(0).Type()}
+		}
+		return SVal{V: TupleVal(pv), T: fn.Signature.Results()}
 	}
 	sfail("unknown function %q in specification", name)
 	return SVal{}
